@@ -103,6 +103,9 @@ def scaling_fallback(rep, F, tag):
             if fb:
                 seen_fb += 1
                 R.check(not allok, 'fallback-only-when-guard-fails' + tag, 'falls back to dual scaling although all guards hold', f.loc())
+                fa = [e[2] for e in ev if e[0] == 'call' and e[1] == 'use_dual_scaling']
+                R.check(all(x.startswith('use_dual_scaling(self, div(dot(arg2, arg3), ') for x in fa), 'fallback-mu' + tag,
+                        'the fallback scales the dual Hessian by %s, expected mu = <s,z>/3' % [x[:80] for x in fa], f.loc())
             else:
                 if ret[0] in ('cut',):
                     # inside the pd branch loops
